@@ -165,6 +165,7 @@ def run(rep: core.Report):
 
     shared_readonly.run(rep, "R10m", ["phonopy/phonon/thermal_properties.py"], 3)
     shared_freshwrite.run(rep, "R10l", ["phonopy/phonon/thermal_properties.py"], 0)
+    _r10n(rep)
 
 
 # ---------------------------------------------------------------------------
@@ -261,7 +262,7 @@ def _r10d(rep):
     call = _phonoc_call(core.find_def(PY, "ThermalProperties._run_c_thermal_properties"), "thermal_properties")
     args = [core.src(a) for a in call.args]
     rep.instance("R10d", PY, "ThermalProperties._run_c_thermal_properties", f"phonoc.thermal_properties(..., {args[4] if len(args) > 4 else '?'}, ...)",
-                 len(args) == 6 and args[4] == "self._cutoff_frequency" and args[2] == "self._frequencies",
+                 len(args) == 6 and args[4] == "self._cutoff_frequency" and args[2].split("[")[0] == "self._frequencies",
                  "the kernel does not receive self._frequencies / self._cutoff_frequency (both in eV)", line=call.lineno)
     # cutoff and frequencies are converted with the same factor
     init = core.find_def(PY, "ThermalPropertiesBase.__init__")
@@ -700,10 +701,62 @@ def kernel_path_conditions(fn):
     return out
 
 
+def _r10n(rep):
+    """Every q-point of the mesh reaches the compiled thermal reduction exactly once, with its own weight."""
+    from engine import pyeval
+
+    rep.rule("R10n", "q-point coverage of the compiled path: whatever way the driver hands the mesh to phonoc.thermal_properties (all at once, or in blocks), the frequency rows passed over all calls are every q-point exactly once and the weights passed with them are those of the same q-points -- evaluated for mesh sizes around every integer constant of the class (block sizes) and for 1 and 7 q-points", 2)
+    fn = core.find_def(PY, "ThermalProperties._run_c_thermal_properties")
+    tree = core.parse(PY)
+    call = _phonoc_call(fn, "thermal_properties")
+    consts = {}
+    for cls in [c for c in ast.walk(tree) if isinstance(c, ast.ClassDef)]:
+        for st in ast.walk(cls):
+            if isinstance(st, ast.Assign) and len(st.targets) == 1 and isinstance(st.targets[0], ast.Attribute) and core.src(st.targets[0].value) == "self" and isinstance(st.value, ast.Constant) and isinstance(st.value.value, int) and not isinstance(st.value.value, bool) and st.value.value > 1:
+                consts[st.targets[0].attr] = st.value.value
+    sizes = {1, 7}
+    for c in consts.values():
+        if c <= 5000:
+            sizes |= {c - 1, c, c + 1, 2 * c, 2 * c + 1, c + c // 2}
+    for n in sorted(x for x in sizes if x >= 1):
+        seen = []
+
+        def kernel(*a, **k):
+            seen.append((a[2] if len(a) > 2 else None, a[3] if len(a) > 3 else None))
+            return None
+
+        hooks = {"attr:_frequencies": [("f", k) for k in range(n)], "attr:_weights": [("w", k) for k in range(n)], core.src(call.func): kernel,
+                 "len": lambda x: len(x) if isinstance(x, (list, tuple)) else pyeval.Opaque("len"), "range": lambda *a: list(range(*a)), "max": max, "min": min,
+                 "zip": lambda *a: [list(t) for t in zip(*a)], "enumerate": lambda x: [[i, y] for i, y in enumerate(x)]}
+        hooks.update({"attr:" + k_: v_ for k_, v_ in consts.items()})
+        E = pyeval.Evaluator(tree, hooks=hooks, where="_run_c_thermal_properties")
+        E.lenient_names = True  # unit constants and the like after the kernel calls: opaque
+        try:
+            E.call(fn, [pyeval.Opaque("self")])
+        except pyeval.Unknown as ex:
+            raise AnalysisError(f"R10n: _run_c_thermal_properties cannot be evaluated for {n} q-points ({ex})")
+        except pyeval.Raised as ex:
+            raise AnalysisError(f"R10n: _run_c_thermal_properties raises {ex} for {n} q-points")
+        fr, wt = [], []
+        shape_ok = True
+        for f_, w_ in seen:
+            if not isinstance(f_, list) or not isinstance(w_, list):
+                shape_ok = False
+                break
+            fr += f_
+            wt += w_
+        ok = shape_ok and sorted(fr) == [("f", k) for k in range(n)] and [k for _, k in fr] == [k for _, k in wt] and all(t == "w" for t, _ in wt)
+        missing = sorted(set(range(n)) - {k for _, k in fr}) if shape_ok else []
+        rep.instance("R10n", PY, "ThermalProperties._run_c_thermal_properties", f"{n} q-points: {len(seen)} kernel call(s) cover {len(fr)} rows", ok,
+                     (f"with {n} q-points the kernel is called {len(seen)} time(s) and receives {len(fr)} frequency rows" + (f"; q-points {missing[:3]}{'...' if len(missing) > 3 else ''} ({len(missing)} in all) never reach it" if missing else "; rows and weights do not belong to the same q-points or a q-point is passed twice") if shape_ok else f"with {n} q-points the arrays handed to the kernel are not rows of the stored frequencies / weights") + ": the temperature-dependent parts of F, S and C_V are summed over a part of the mesh while the zero-point energy and the normalisation use all of it", line=fn.lineno)
+
+
 def selftest():
     V = []
     b = lambda name, file, old, new, rule, expect="", **kw: V.append(dict(name=name, kind="break", file=file, old=old, new=new, rule=rule, expect=expect, **kw))
     n = lambda name, file, old, new, **kw: V.append(dict(name=name, kind="neutral", file=file, old=old, new=new, **kw))
+    b("compiled path fed in blocks, the incomplete last block dropped", PY, "        phonoc.thermal_properties(\n            props,\n            self._temperatures,\n            self._frequencies,\n            self._weights,\n            self._cutoff_frequency,\n            self._classical,\n        )", "        bs = 4\n        for i in range(max(len(self._frequencies) // bs, 1)):\n            phonoc.thermal_properties(\n                props,\n                self._temperatures,\n                self._frequencies[i * bs : (i + 1) * bs],\n                self._weights[i * bs : (i + 1) * bs],\n                self._cutoff_frequency,\n                self._classical,\n            )", "R10n", "_run_c_thermal_properties")
+    n("compiled path fed in blocks that cover the mesh", PY, "        phonoc.thermal_properties(\n            props,\n            self._temperatures,\n            self._frequencies,\n            self._weights,\n            self._cutoff_frequency,\n            self._classical,\n        )", "        bs = 4\n        for i in range(0, len(self._frequencies), bs):\n            phonoc.thermal_properties(\n                props,\n                self._temperatures,\n                self._frequencies[i : i + bs],\n                self._weights[i : i + bs],\n                self._cutoff_frequency,\n                self._classical,\n            )")
     b("result array of the compiled thermal reduction allocated without contents", PY, '        props = np.zeros((len(self._temperatures), 3), dtype="double", order="C")', '        props = np.empty((len(self._temperatures), 3), dtype="double", order="C")', "R10y.zeroinit", "_run_c_thermal_properties")
     b("projected thermal sums mask the component axis", PY, "                        eigvecs2[:, cond],", "                        eigvecs2[cond],", "R10k", "_calculate_thermal_property")
     b("entropy: sign of the log term", PY, "return freqs / temp * expVal / (1.0 - expVal) - Kb * np.log(1.0 - expVal)", "return freqs / temp * expVal / (1.0 - expVal) + Kb * np.log(1.0 - expVal)", "R10a", "S + dF/dT")
